@@ -151,14 +151,44 @@ Proof.
     + (* PHsAuth *)
       destruct (continue current_variant C (PHsAuth ip0 k) s) as [[p1 s1] r1] eqn:Es. injection Hs as <- <-.
       cbn [continue] in Es. cbn [thr_quiet budget pending_on] in *.
-      destruct (hk_fails k) eqn:Ek.
-      * rewrite andb_true_r in Hlt |- *.
-        destruct (do_fail_a_budget C s ip0 _ _ _ _ _ ip Es Hf) as (Hb' & Hp' & Hf' & Ht').
-        { intros ->. rewrite N.eqb_refl in Hlt. pose proof (budget_nonneg ip (LProg PIdle rest [])) as H0. cbn in H0. lia. }
-        split; [split; [congruence|exact Hf']|]. split; [split; [exact Hnb|destruct p1; auto; contradiction]|].
-        rewrite Ht'. destruct p1; try contradiction; cbn [pending_on]; lia.
-      * rewrite andb_false_r in *. pair_inv Es. cbn [anon_resets current_variant bans fails pending_on].
-        split; [split; [exact Hb|exact Hf]|split; [auto|lia]].
+      assert (Hrest0 : 0 <= fold_right Z.add 0 (map (failing_on ip) rest)).
+      { pose proof (budget_nonneg ip (LProg PIdle rest [])) as H0. cbn in H0. lia. }
+      assert (Hfail : forall s0, fails s0 = fails s -> bans s0 = bans s -> hk_fails k = true ->
+                do_fail_a C s0 ip0 3%N 3%N = (p1, s1, r1) ->
+                (bans s1 ip = None /\ frec_ok (fails s1 ip)) /\
+                (forallb (fun c => negb (is_ban_call ip c)) rest = true /\ match p1 with PFailB k0 _ _ => k0 <> ip | _ => True end) /\
+                total_of (fails s1 ip) + (pending_on ip p1 + fold_right Z.add 0 (map (failing_on ip) rest))
+                <= total_of (fails s ip) + ((if N.eqb ip0 ip && hk_fails k then 1 else 0) + fold_right Z.add 0 (map (failing_on ip) rest))).
+      { intros s0 Hf0 Hb0 Hk E. rewrite Hk, andb_true_r in *.
+        assert (Hf' : frec_ok (fails s0 ip)) by (rewrite Hf0; exact Hf).
+        destruct (do_fail_a_budget C s0 ip0 _ _ _ _ _ ip E Hf') as (Hb' & Hp' & Hf'' & Ht').
+        { intros ->. rewrite N.eqb_refl in Hlt. rewrite Hf0. lia. }
+        rewrite Hf0 in Ht'. split; [split; [congruence|exact Hf'']|].
+        split; [split; [exact Hnb|destruct p1; auto; contradiction]|].
+        rewrite Ht'. destruct p1; try contradiction; cbn [pending_on]; lia. }
+      assert (Hsucc : forall s0 (b : bool), fails s0 = fails s -> bans s0 = bans s ->
+                let s2 := if b then set_fails s0 (upd (fails s0) ip0 None) else s0 in
+                (bans s2 ip = None /\ frec_ok (fails s2 ip)) /\ total_of (fails s2 ip) <= total_of (fails s ip)).
+      { intros s0 b Hf0 Hb0. destruct b; cbn [bans fails set_fails].
+        - rewrite Hb0, Hf0. split; [split; [exact Hb|]|].
+          + destruct (N.eqb_spec ip ip0) as [->|Hne]; [rewrite upd_same; unfold frec_ok; cbn; unfold lenZ; cbn; lia|].
+            rewrite upd_other by exact Hne. exact Hf.
+          + destruct (N.eqb_spec ip ip0) as [->|Hne]; [rewrite upd_same; cbn; destruct Hf; lia|].
+            rewrite upd_other by exact Hne. lia.
+        - rewrite Hb0, Hf0. split; [split; [exact Hb|exact Hf]|lia]. }
+      assert (Hpend : 0 <= (if N.eqb ip0 ip && hk_fails k then 1 else 0)) by (destruct (_ && _); lia).
+      destruct k as [| | | |c|c good]; cbn [auth_fails] in Es.
+      * exact (Hfail s eq_refl eq_refl eq_refl Es).
+      * cbn [anon_resets current_variant] in Es. injection Es as <- <- <-. cbn [pending_on].
+        destruct (Hsucc s false eq_refl eq_refl) as [H1 H2]. split; [exact H1|]. split; [auto|]. cbn in H2. lia.
+      * exact (Hfail s eq_refl eq_refl eq_refl Es).
+      * exact (Hfail s eq_refl eq_refl eq_refl Es).
+      * injection Es as <- <- <-. cbn [bans fails set_chal pending_on]. split; [split; [exact Hb|exact Hf]|]. split; [auto|lia].
+      * destruct (negb (chal s c && good)).
+        -- exact (Hfail (set_chal s (upd (chal s) c false)) eq_refl eq_refl eq_refl Es).
+        -- injection Es as <- <- <-. cbn [pending_on].
+           destruct (Hsucc (set_chal s (upd (chal s) c false)) true eq_refl eq_refl) as [H1 H2].
+           split; [exact H1|]. split; [auto|]. cbn [fails set_fails set_chal] in H2 |- *. lia.
 Qed.
 
 Definition bsum (ip : N) (ls : list lo) : Z := fold_right Z.add 0 (map (budget ip) ls).
